@@ -1037,4 +1037,107 @@ def malformed (m : Mode) (p : Str) : Option Err :=
   | .error e => some e
   | .ok _ => none
 
+/-! ## §6 the region where translator and reference are proved to agree
+
+  `supported m p` is a syntactic, conservative description of the patterns on which pattern.go's
+  quirks do not fire.  It leaves out (see props/C17.notes.md for witnesses):
+    * bracket expressions in which an unescaped dash is neither a range operator between two
+      plain characters nor the last character (pattern.go checks the raw neighbours of every dash);
+    * ranges whose end point is escaped or is a `[`;
+    * in filename mode: a slash inside a bracket expression, a bracket expression whose set
+      contains the slash (negated, range, class), `**(`; without dotglob, `?`, a bracket
+      expression or a pattern-list where the pattern alone does not exclude the start of a path
+      component, and `*` after another wildcard that may have matched nothing;
+    * unterminated pattern-lists, bare parentheses inside a pattern-list, and `!(…)`.
+-/
+
+/-- Where the cursor can be relative to the path components of the subject, judging from the
+    pattern alone. -/
+inductive Pos
+  | start | mid | unknown
+  deriving DecidableEq, Repr
+
+def brSupported (fn : Bool) : Nat → Bool → Str → Bool
+  | 0, _, _ => false
+  | _ + 1, _, [] => true
+  | fuel + 1, first, c :: rest =>
+    if c = cRB ∧ !first then true
+    else
+      match (if c = cLB then scanClass rest else none) with
+      | some (n, _) => !(fn && (rest.take n).contains cSlash) && brSupported fn fuel false (rest.drop n)
+      | none =>
+        match elemChar (c :: rest) with
+        | none => true
+        | some (lo, esc, r1) =>
+          if fn && lo == cSlash then false
+          else if c = cDash ∧ !esc then
+            -- a dash that is not a range operator: only as the last character
+            r1.head? == some cRB && brSupported fn fuel false r1
+          else
+            match r1 with
+            | d :: r2 =>
+              if d = cDash ∧ r2.head? ≠ some cRB then
+                match r2 with
+                | hi :: r3 => hi != cBS && hi != cLB && !(fn && hi == cSlash) && brSupported fn fuel false r3
+                | [] => true
+              else brSupported fn fuel false r1
+            | [] => true
+
+def bracketSupported (fn : Bool) (s : Str) : Bool :=
+  let neg := s.head? = some cBang ∨ s.head? = some cCaret
+  let body := if neg then s.tail else s
+  brSupported fn (body.length + 1) true body
+
+def posAfter (c : Rune) : Pos := if c == cSlash then .start else .mid
+
+def supp (m : Mode) (inGroup : Bool) : Nat → Pos → Rune → Str → Bool
+  | 0, _, _, _ => false
+  | _ + 1, _, _, [] => true
+  | fuel + 1, pos, prev, c :: rest =>
+    let dotSens := m.filenames && !m.dotglob
+    if c = cBS then
+      match rest with
+      | [] => true
+      | d :: rest' => supp m inGroup fuel (posAfter d) d rest'
+    else if m.ext && isExtOp c && rest.head? == some cLP then
+      if c = cBang then false
+      else
+        match scanGroup m.filenames (rest.length + 1) 0 [] [] rest.tail with
+        | none => false
+        | some (alts, rest') =>
+          (!dotSens || pos == .mid) &&
+          alts.all (fun a => supp m true fuel .mid cLP a) &&
+          supp m inGroup fuel (if dotSens then .unknown else .mid) cRP rest'
+    else if c = cQuest then (!dotSens || pos == .mid) && supp m inGroup fuel .mid c rest
+    else if c = cStar then
+      if !m.filenames then supp m inGroup fuel .mid c rest
+      else if !m.noglobstar && (prev == 0 || prev == cSlash) && rest.head? == some cStar
+          && (rest.tail.isEmpty || rest.tail.head? == some cSlash) then
+        match rest.tail with
+        | _ :: rest3 => supp m inGroup fuel .start cSlash rest3
+        | [] => true
+      else
+        let after := if pos == .mid then Pos.mid else Pos.unknown
+        (!dotSens || pos != .unknown) &&
+        -- pattern.go's `**` look-ahead swallows the operator of a following `*(`
+        !(m.ext && rest.head? == some cStar && rest.tail.head? == some cLP) &&
+        (match rest with
+         | c2 :: rest2 => if c2 = cStar then supp m inGroup fuel after c rest2
+                          else supp m inGroup fuel after c rest
+         | [] => true)
+    else if c = cLB then
+      bracketSupported m.filenames rest &&
+      (match scanBracket m.filenames rest with
+       | .ok neg items rest' =>
+         -- pattern.go lets a negated bracket, a range or a class that contains `/` match a slash
+         !(m.filenames && (neg || items.any (·.mem cSlash))) &&
+         (!dotSens || pos == .mid) && supp m inGroup fuel .mid cRB rest'
+       | .notBracket => supp m inGroup fuel .mid cLB rest
+       | .malformed _ => !inGroup)
+    else if inGroup && c == cLP then false
+    else supp m inGroup fuel (posAfter c) c rest
+
+/-- The patterns covered by `regexp_language`. -/
+def supported (m : Mode) (p : Str) : Bool := supp m false (p.length + 1) .start 0 p
+
 end ShVerif.L3
